@@ -24,6 +24,9 @@ The spaces are finite tables and are enumerated completely:
 
   dirhistory short histories of changeLabel on a few nuclides: lookups stay truthful, materials still build.
 
+  rebuildhistory short histories of lookups/copies, relabelling and directory rebuilds (forked children):
+             every lookup, copy and pickle returns the object currently registered; elements list those.
+
 A *case* names the part (and the material / the history); ``evaluate(case)`` re-runs that part.
 """
 import math
@@ -881,8 +884,198 @@ def _eval_dirhistory(case):
 
 
 # ---------------------------------------------------------------------------------------------
+# part: rebuild histories - the directory can be rebuilt the way the package itself does it
+#
+# Operations: "touch" (look a sample of nuclides up through every public lookup function, deepcopy and
+# pickle them), "relabel" (changeLabel on U235), "rebuild" (destroyGlobalNuclides(); factory() - what the
+# package's own fixtures do) or, in the second family, "rebuild-all" (elements.factory() first).  At the
+# end of EVERY history: every table lookup, every public lookup function, deepcopy and pickle return the
+# object CURRENTLY registered (``is``); elements list exactly the current objects; every material class
+# still builds its nominal self.  A rebuild cannot be undone, so each history runs in a forked child.
 
-_PARTS = {"directory": _eval_directory, "elements": _eval_elements, "burnchain": _eval_burnchain, "material": _eval_material, "mathistory": _eval_mathistory, "dirhistory": _eval_dirhistory}
+REBUILD_SAMPLE = ("U235", "U238", "PU239", "AM242", "AM242G", "AM242M", "FE", "C", "NA23", "H1", "LFP38", "DUMP1", "TA180M", "B10")
+
+
+def _touch(nb, nucDir, names):
+    import copy
+    import pickle
+
+    out = []
+    for name in names:
+        nuc = nb.byName[name]
+        real = nuc.name  # AM242 is an alias of AM242M
+        m = re.match(r"^([A-Z]+)(\d.*)$", real)
+        got = {
+            "fromName": nb.fromName(real),
+            "nucDir.getNuclide": nucDir.getNuclide(real),
+            "nucDir.getNuclideFromName": nucDir.getNuclideFromName("%s-%s" % (m.group(1), m.group(2)) if m else real),
+            "single": nb.single(lambda n, real=real: n.name == real),
+            "where": next(iter(nb.where(lambda n, real=real: n.name == real))),
+            "deepcopy": copy.deepcopy(nuc),
+            "copy": copy.copy(nuc),
+            "pickle": pickle.loads(pickle.dumps(nuc)),
+        }
+        if isinstance(nuc, nb.NuclideBase):
+            got["getIsotopics"] = nb.getIsotopics(real)[0]
+            got["isotopes(z)"] = next((n for n in nb.isotopes(nuc.z) if n.name == real), None)
+        out.append((name, nuc, got))
+    return out
+
+
+def _rebuild_child(case):
+    """Runs ONE history in this (forked) process; returns (violations, stats)."""
+    from armi.nucDirectory import elements, nucDir
+    from armi.nucDirectory import nuclideBases as nb
+
+    hist, family = case["hist"], case["family"]
+    vs = []
+    cc = {"part": "rebuildhistory", "family": family, "depth": case["depth"], "hist": hist}
+    names = [n for n in REBUILD_SAMPLE if n in nb.byName]
+    matnames = [n for n, _ in matlib.discover()]
+    refobs = {}
+    for name in matnames:
+        lo, hi, _, _ = matlib.stated_range_C(name, "pseudoDensity")
+        refobs[name] = (0.5 * (lo + hi), _mat_obs(matlib.cls_of(name)(), 0.5 * (lo + hi)))
+    former = {}
+    n_objects_before = len(nb.instances)
+    for op in hist:
+        if op == "touch":
+            _touch(nb, nucDir, names)
+        elif op == "relabel":
+            nuc = nb.byName["U235"]
+            former[nuc.label] = nuc
+            nb.changeLabel(nuc, "q0u" if nuc.label != "q0u" else "q1u")
+        elif op in ("rebuild", "rebuild-all"):
+            if op == "rebuild-all":
+                elements.factory()
+            nb.destroyGlobalNuclides()
+            nb.factory()
+            former = {}
+        else:
+            raise RuntimeError("unknown op %r" % (op,))
+    what = "after %s" % (hist or "nothing")
+    lookups = _lookup_identity(nb, former, vs, cc, what)
+    if len(nb.instances) != n_objects_before:
+        _v(vs, "c19/rebuild-object-count", "%s: the directory holds %d objects, it held %d" % (what, len(nb.instances), n_objects_before), cc)
+    inst = {id(n) for n in nb.instances}
+    elements_stale = any(id(m) not in inst for e in elements.byZ.values() for m in e.nuclides)
+    for name, nuc, got in _touch(nb, nucDir, names):
+        lookups += len(got)
+        for fn, g in sorted(got.items()):
+            if fn == "isotopes(z)" and elements_stale:
+                continue  # reads the element's list: reported once, below
+            if g is not nuc:
+                same = "an equal but different object (element current: %s, in directory: %s)" % (getattr(g, "element", None) is elements.byZ.get(getattr(g, "z", None)), any(g is n for n in nb.instances)) if g is not None and g == nuc else repr(g)
+                _v(vs, "c19/lookup-not-current-object/%s" % fn, "%s: %s of %s does not return the object currently registered under that name but %s" % (what, fn, name, same), cc)
+    inst = {id(n) for n in nb.instances}
+    listed = set()
+    stale = missing = 0
+    example = None
+    for e in elements.byZ.values():
+        for m in e.nuclides:
+            listed.add(id(m))
+            if id(m) not in inst:
+                stale += 1
+                example = example or "%s lists a %s that is not the registered object" % (e.symbol, m.name)
+    for n in nb.instances:
+        if n.element is not elements.byZ.get(n.z):
+            _v(vs, "c19/nuclide-element-after-rebuild", "%s: %s points to an element object that is not elements.byZ[%d]" % (what, n.name, n.z), cc)
+            break
+        if id(n) not in listed:
+            missing += 1
+            example = example or "%s is not listed by its element" % n.name
+    if stale or missing:
+        _v(vs, "c19/element-lists-stale-nuclides-after-rebuild", "%s: elements list %d objects that are not in the directory and miss %d registered nuclides (e.g. %s)" % (what, stale, missing, example), cc)
+    for name in matnames:
+        Tp, ro = refobs[name]
+        try:
+            d = _obs_delta(ro, _mat_obs(matlib.cls_of(name)(), Tp))
+        except Exception as e:  # noqa: BLE001
+            d = "instantiation raised %r" % (e,)
+        if d:
+            _v(vs, "c19/material-after-rebuild/%s" % name, "%s: %s() is no longer the nominal material: %s" % (what, name, d), cc)
+    state = [len(nb.instances), sorted(former), nb.byName["U235"].label, stale, missing]
+    return vs, {"lookups": lookups, "state": state, "materials": len(matnames)}
+
+
+def _forked(func, case):
+    """Run func(case) in a forked child (the directory rebuild cannot be undone in-process)."""
+    import json
+    import traceback
+
+    r, w = os.pipe()
+    pid = os.fork()
+    if pid == 0:
+        code = 0
+        try:
+            os.close(r)
+            try:
+                data = json.dumps(["ok", func(case)], default=repr)
+            except BaseException as e:  # noqa: BLE001
+                data = json.dumps(["err", "%r\n%s" % (e, traceback.format_exc())])
+            with os.fdopen(w, "w") as f:
+                f.write(data)
+        except BaseException:  # noqa: BLE001
+            code = 3
+        finally:
+            os._exit(code)
+    os.close(w)
+    with os.fdopen(r) as f:
+        data = f.read()
+    os.waitpid(pid, 0)
+    status, out = json.loads(data) if data else ("err", "child wrote nothing")
+    if status != "ok":
+        raise RuntimeError("forked history failed: %s" % out)
+    return out
+
+
+def _rebuild_jobs(depth):
+    import itertools
+
+    jobs = []
+    for family in ("rebuild", "rebuild-all"):
+        ops = ["touch", "relabel", family]
+        for L in range(depth + 1):
+            for h in itertools.product(ops, repeat=L):
+                if L == 0 and family != "rebuild":
+                    continue
+                if L and family == "rebuild-all" and family not in h:
+                    continue  # already explored in the first family
+                jobs.append((family, list(h)))
+    return jobs
+
+
+def _eval_rebuildhistory(case):
+
+    depth = case["depth"]
+    vs = []
+    st = {"histories": 0, "transitions": 0, "states": 0, "lookups": 0, "material_instantiations": 0, "rebuilds": 0}
+    jobs = [(case["family"], list(case["hist"]))] if "hist" in case else _rebuild_jobs(depth)
+    seen = set()
+    failed = set()
+    for family, hist in jobs:
+        if any(tuple(hist[: len(f)]) == f for f in failed):
+            continue  # extensions of a failing history add nothing
+        st["histories"] += 1
+        st["transitions"] += len(hist)
+        st["rebuilds"] += sum(1 for o in hist if o.startswith("rebuild"))
+        cvs, cst = _forked(_rebuild_child, {"part": "rebuildhistory", "family": family, "depth": depth, "hist": hist})
+        st["lookups"] += cst["lookups"]
+        st["material_instantiations"] += cst["materials"]
+        seen.add(repr(cst["state"]))
+        if cvs:
+            failed.add(tuple(hist))
+            for v in cvs:
+                if len(vs) < MAX_V:
+                    vs.append(v)
+    st["states"] = len(seen)
+    st["state_list"] = sorted(seen)
+    return vs, st
+
+
+# ---------------------------------------------------------------------------------------------
+
+_PARTS = {"directory": _eval_directory, "elements": _eval_elements, "burnchain": _eval_burnchain, "material": _eval_material, "mathistory": _eval_mathistory, "dirhistory": _eval_dirhistory, "rebuildhistory": _eval_rebuildhistory}
 
 
 def _evaluate_counted(case):
@@ -911,11 +1104,24 @@ def run(ctx):
     hits = ctx.order([{"part": "mathistory", "name": name, "depth": depth} for name, _ in matlib.discover()])
     # the directory history (relabelling) goes first and alone in its worker slot: it restores what it touches
     ddepth = 2 if ctx.quick else 3
-    dres = core.pmap(MOD, "_evaluate_counted", [{"part": "dirhistory", "depth": ddepth}] + hits, chunksize=1)
-    (dvs, dst), hres = dres[0], dres[1:]
+    rdepth = 2 if ctx.quick else 3
+    rits = [{"part": "rebuildhistory", "family": fam, "depth": rdepth, "hist": h} for fam, h in _rebuild_jobs(rdepth)]
+    dres = core.pmap(MOD, "_evaluate_counted", [{"part": "dirhistory", "depth": ddepth}] + rits + hits, chunksize=1)
+    (dvs, dst), rres, hres = dres[0], dres[1 : 1 + len(rits)], dres[1 + len(rits) :]
     ctx.add_violations(dvs)
+    rst = {"histories": 0, "transitions": 0, "lookups": 0, "material_instantiations": 0, "rebuilds": 0}
+    rstates = set()
+    for rvs, st1 in rres:
+        ctx.add_violations(rvs)
+        for k in rst:
+            rst[k] += st1[k]
+        rstates.update(st1["state_list"])
+    rst["states"] = len(rstates)
     for k, v in dst.items():
         ctx.count("directory_history_" + k, v)
+    for k, v in rst.items():
+        ctx.count("rebuild_history_" + k, v)
+    ctx.coverage.update(rebuild_history_depth=rdepth, rebuild_history_states=rst["states"], rebuild_history_transitions=rst["transitions"], rebuild_history_operations=["touch", "relabel", "rebuild", "rebuild-all"])
     ctx.coverage.update(directory_history_depth=ddepth, directory_history_states=dst["states"], directory_history_transitions=dst["transitions"], directory_history_relabelled=list(RELABEL_TARGETS))
     hs = {"histories": 0, "transitions": 0, "states": 0, "refusals": 0, "probes": 0}
     hops = {}
@@ -963,8 +1169,8 @@ def run(ctx):
             ctx.count("material_distinct_property_values", st["distinct_values"])
             if st["ranges"]:
                 ranges[it["name"]] = st["ranges"]
-    ev += hs["probes"] + dst["lookups"] + dst["material_instantiations"]
-    nontrivial += hs["states"] + dst["states"]
+    ev += hs["probes"] + dst["lookups"] + dst["material_instantiations"] + rst["lookups"] + rst["material_instantiations"]
+    nontrivial += hs["states"] + dst["states"] + rst["states"]
     ctx.coverage.update(
         material_history_depth=depth,
         material_history_states=hs["states"],
@@ -989,6 +1195,7 @@ def run(ctx):
         "identifier encoders for name/label/MCNP/AAAZZZS are written here from the documented rules; MC2 identifiers are table data compared with an independent parse of mcc-nuclides.yaml",
         "abstract bases (%s), Custom and Void are only instantiated: they are empty by definition" % sorted(matlib.ABSTRACT),
         "data files are parsed independently with str.split / ruamel safe loader (trusted)",
+        "directory rebuild: all histories of bounded length over {touch = every public lookup function + copy/deepcopy/pickle on a 14-nuclide sample, changeLabel(U235), destroyGlobalNuclides()+factory() with or without elements.factory() first}, each in a forked child, identity oracle at the end of every history; thermal-scattering tables and class-level references held by material classes are not observed",
         "directory mutators: all histories of bounded length over {changeLabel to a fresh label, changeLabel back} on %s; after each, lookup identity of every identifier, no key reaching a nuclide that never carried it, every material class re-instantiated; label collisions (relabelling onto an existing label) and other mutators (addGlobalNuclide, destroyGlobalNuclides, factory) are not explored" % (RELABEL_TARGETS,),
         "material instances share no mutable state: all histories of bounded length over {instantiate, setMassFrac existing/new, removeNucMassFrac, clearMassFrac, direct massFrac item assignment, adjustMassFrac, applyInputParams(), setDefaultMassFracs, duplicate} on every class; a mutator that raises counts as refused; longer histories and attributes other than massFrac/refDens/theoreticalDensityFrac/densities at one probe temperature are not observed",
     ]
